@@ -1,5 +1,6 @@
 ----------------------------- MODULE MC_Lattice -----------------------------
 EXTENDS LatticeWalk
+Unlimited == -1
 NoDev == [noWrap |-> FALSE, noOverlapTest |-> FALSE, neighboursExempt |-> FALSE]
 DevNeighbours == [NoDev EXCEPT !.neighboursExempt = TRUE]
 NoRings == {}
